@@ -106,6 +106,8 @@ class NoneFn(W.MapFn):
     def __call__(self, x):
         ctx, ids = W._enter(self.stage, x)
         ctx.event('ret', self.stage, ids)
+        if NONEVALS[0] == 'str':
+            return value_of(ids[0])
         if ids[0] % 3 == 0:
             return None
         return {'f': self.stage, 'x': x}
@@ -121,6 +123,11 @@ class BigFn(W.MapFn):
 
 
 def value_of(i):
+    if NONEVALS[0] == 'str':
+        # plain strings with every kind of line ending (a store that writes
+        # text files must not translate them)
+        return 'example %d\r\nsecond line\rthird\n' % i if i % 3 != 2 else \
+            {'f': 'u0', 'x': {'src': i}}
     if NONEVALS[0]:
         return None if i % 3 == 0 else {'f': 'u0', 'x': {'src': i}}
     if BIG[0]:
@@ -275,7 +282,9 @@ def gen(rng, tier, index):
     n = rng.randrange(1, 7)
     kind = rng.choice(['list', 'dict'])
     big = rng.random() < 0.2
-    nonevals = (not big) and rng.random() < 0.2
+    nonevals = (not big) and rng.random() < 0.35
+    if nonevals and rng.random() < 0.45:
+        nonevals = 'str'
     BIG[0] = big
     NONEVALS[0] = nonevals
     cases = []
@@ -722,7 +731,7 @@ def run_default_dir(case):
 
 def run(case):
     BIG[0] = bool(case.get('big'))
-    NONEVALS[0] = bool(case.get('nonevals'))
+    NONEVALS[0] = case.get('nonevals') or False
     try:
         return _run(case)
     finally:
@@ -743,7 +752,9 @@ def _run(case):
             m, extra = run_life(case)
             nontrivial = bool(m.fired)
     m.fired['mode_' + case['mode']] += 1
-    if case.get('nonevals'):
+    if case.get('nonevals') == 'str':
+        m.fired['plain_string_examples_with_line_endings'] += 1
+    elif case.get('nonevals'):
         m.fired['none_valued_examples'] += 1
     if case.get('big'):
         m.fired['file_backed_examples'] += 1
